@@ -19,6 +19,13 @@ func (m *multiFlag) Set(s string) error { *m = append(*m, s); return nil }
 
 func main() {
 	debug.SetGCPercent(1600)
+	// the collector is lazy for speed; a soft limit keeps long explorations (hundreds of
+	// thousands of paths) from growing without bound
+	memGB := int64(8)
+	if v, err := strconv.Atoi(os.Getenv("GOSYMX_MEMLIMIT_GB")); err == nil && v > 0 {
+		memGB = int64(v)
+	}
+	debug.SetMemoryLimit(memGB << 30)
 	if len(os.Args) < 2 {
 		fmt.Fprintln(os.Stderr, "usage: gosymx run|check|replay|selftest ...")
 		os.Exit(2)
